@@ -370,8 +370,8 @@ def load_previous_run(args):
 
 
 def save_params(args):
-    for file_opt in ["genedb", "reference", "index", "bam", "fastq", "bam_list", "fastq_list", "junc_bed_file",
-                     "cage", "genedb_output", "read_assignments"]:
+    for file_opt in ["genedb", "reference", "index", "bam", "fastq", "bam_list", "fastq_list", "yaml", "illumina_bam",
+                     "junc_bed_file", "cage", "genedb_output", "read_assignments"]:
         if file_opt in args.__dict__ and args.__dict__[file_opt]:
             if isinstance(args.__dict__[file_opt], list):
                 args.__dict__[file_opt] = list(map(os.path.abspath, args.__dict__[file_opt]))
